@@ -112,6 +112,8 @@ def translate(log, keys: Keys):
             ev.append(f'link {int(a[0][6:])} {int(a[1][6:])}')
         elif kind == 'mkdir':
             ign('mkdir')
+        elif kind == 'fault':
+            ign('fault')
         elif kind == 'fcntl':
             ign('fcntl')
         elif kind == 'sql':
@@ -432,10 +434,58 @@ def crash_search(ck, pid, powerloss=False):
         if not names:
             return None
         before = len(ck.concrete)
-        for pl in ([True] if powerloss else [False, True]):
+        for pl in ([True] if powerloss else [False]):
             sweep.sweep(ck, pid, names, 'kill', powerloss=pl)
             if len(ck.concrete) > before:
                 c = ck.concrete[before]
                 return (c['what'] + ' (found by killing the process at every gated call of the scenario whose trace the verified monitor rejects)', c['case'])
         return None
     return search
+
+
+def check_fault_traces(ck, pid):
+    """C17: every run with an injected fault is a trace too (events before the fault + what the handlers did): the verified monitor
+    must accept every boundary of it and the model must end in the folder the failed operation left behind"""
+    import scen
+    from concurrent.futures import ThreadPoolExecutor
+    runs = [(n, r) for n, r in getattr(ck, 'fault_runs', []) if n not in scen.DAMAGED_PRE]
+
+    def one(item):
+        name, r = item
+        run = r['trace_run']
+        try:
+            lines, keys, ev, ignored, unknown = build_block(run)
+            p = subprocess.run([os.path.join(common.OCAML, 'driver')], input='\n'.join(lines) + '\n', capture_output=True, text=True, timeout=600)
+            out = p.stdout.strip().splitlines()
+            if not out or out[-1].startswith('ERROR'):
+                return (name, r['n'], 'driver: ' + (out[-1] if out else p.stderr[-200:]))
+            m = re.match(r'crash=(\S+) pl=(\S+) mono=(\S+) c13=(\S+) prog=(.*) final=(.*)$', out[-1])
+            fin = parse_final(m.group(6))
+            els, eps, ers = expected_final(run, keys)
+            bad = []
+            if sorted(f'{k}:{d}' for k, d, _ in fin['L']) != els:
+                bad.append('loose differ')
+            # a write handle whose close() was the faulted call is flushed later by the interpreter's finaliser: the real pack may
+            # carry an unreferenced tail the model does not have (harmless: C03_tolerates_unreferenced_tail); anything else is a difference
+            real = dict(x.split(':', 1) for x in eps)
+            mod = {k: d for k, d, _ in fin['P']}
+            if set(real) != set(mod) or any(not (real[k].replace('-', '')).startswith(mod[k].replace('-', '')) for k in mod):
+                bad.append('packs differ')
+            if sorted(fin['R']) != sorted(ers):
+                bad.append('rows differ')
+            if unknown:
+                bad.append(f'unknown events {unknown[:2]}')
+            if m.group(1) != 'ok':
+                bad.append(f'monitor {m.group(1)}')
+            return (name, r['n'], '; '.join(bad) if bad else None)
+        except Exception as e:
+            return (name, r['n'], f'{type(e).__name__}: {e}')
+    with ThreadPoolExecutor(common.NPROC) as ex:
+        res = list(ex.map(one, runs))
+    bad = [f'{n}@{k}: {b}' for n, k, b in res if b]
+    ck.cov['fault_traces_monitored'] = len(res)
+    ck.obligation(f'discipline+semantics on fault runs: the verified monitor accepts every boundary of each of the {len(res)} traces with an injected fault and the model '
+                  f'ends in the folder the failed operation left behind', not bad, '; '.join(bad)[:1200], kind='correspondence')
+    for n, k, b in res:
+        if b:
+            getattr(ck, 'rejected_scenarios', set()).add(n)
